@@ -2,6 +2,7 @@ import Genq.Props.C02
 open Genq.Collect
 open Genq.Codec
 open Genq
+open Genq
 #print axioms C02_fragmentMatches_is_DoesFragmentTypeApply
 #print axioms C02_struct_fields_are_collectFields
 #print axioms C02_struct_fields_are_collectFields_with_spreads
@@ -10,3 +11,4 @@ open Genq
 #print axioms C02_lookup_exact
 #print axioms C02_fold_twin_witness
 #print axioms C02_codec_template_tie
+#print axioms C02_fragment_matches_tie
